@@ -75,14 +75,14 @@ def _classes():
         a2 = AtomGrid(rg(), degrees=[3], center=np.array([0.0, 0.0, 3.0]))
         return MolGrid(np.array([1, 8]), [a1, a2], BeckeWeights(order=3), store=True)
 
-    def od(pts, lo=-1.0, hi=9.0):
+    def od(pts, lo=-1.0, hi=60.0):
         return OneDGrid(np.array(pts, dtype=float), np.arange(1, len(pts) + 1) * 0.25, (lo, hi))
 
     cs = [
         Case("Grid1D", lambda: Grid(p1.copy(), w5.copy()), True, True, dim1=True),
         Case("Grid2D", lambda: Grid(p2.copy(), w5.copy()), True, True),
         Case("Grid3D", lambda: Grid(p3.copy(), w5.copy()), True, True),
-        Case("OneDGrid", lambda: OneDGrid(p1.copy(), w5.copy(), (-1.0, 8.0)), True, True, dim1=True,
+        Case("OneDGrid", lambda: OneDGrid(p1.copy(), w5.copy(), (-1.0, 60.0)), True, True, dim1=True,
              extra=lambda g: [float(g.domain[0]), float(g.domain[1])]),
         Case("LocalGrid", lambda: LocalGrid(p3.copy(), w5.copy(), np.zeros(3), np.arange(5)), True, False),
         Case("AngularGrid", lambda: AngularGrid(degree=3), True, False),
@@ -182,7 +182,9 @@ class Driver:
         perm = np.roll(np.arange(n), 1)
         dup = pts0.copy()
         dup[1] = dup[0]
-        self.palts = [pts0.copy(), pts0[::-1].copy(), dup, pts0[perm].copy()]
+        # the fourth alternative is far outside the bounding box of the others (a neighbour search structure built
+        # for the old positions prunes every ball around the new ones); the third centre below sits on its corner
+        self.palts = [pts0.copy(), pts0[::-1].copy(), dup, pts0[perm] + 40.0]
         self.walts = [wts0.copy(), wts0[::-1].copy() * 2.0 + 1.0]
         d1 = case.dim1
         P = pts0.reshape(n, -1)
@@ -226,12 +228,19 @@ class Driver:
             e["exc"] = type(ex).__name__
         self.events.append(e)
 
-    def set_points(self, pi):
+    def set_points(self, pi, inplace=False):
         e = self._blank("SetPoints")
         new = self.palts[pi % len(self.palts)].copy()
         e["pts"] = enc_points(new, self.case.dim1)
         try:
-            self.obj.points = new
+            if inplace:
+                # the other way callers move a grid: edit the array they were given, then assign it back
+                # (the assignment is how the grid learns of the change)
+                p = self.obj.points
+                p[...] = new
+                self.obj.points = p
+            else:
+                self.obj.points = new
         except Exception as ex:
             e["exc"] = type(ex).__name__
         self.events.append(e)
@@ -302,9 +311,9 @@ class Driver:
                 # an infinite radius on a PeriodicGrid is property C11's business (known finding there)
                 if self.case.can_query and (self.case.inf_ok or RVALS[(b - 1) % len(RVALS)] != INF):
                     self.query(a - 1, b - 1)
-            elif act == "SP":
+            elif act in ("SP", "SPI"):
                 if self.case.can_set_points:
-                    self.set_points(a - 1)
+                    self.set_points(a - 1, inplace=(act == "SPI"))
             elif act == "SW":
                 self.set_weights(a - 1)
             elif act == "GI":
@@ -356,7 +365,7 @@ def _random_beh(rng, length):
         if x < 0.45:
             out.append(("Q", rng.randint(1, 4), rng.randint(1, 6)))
         elif x < 0.65:
-            out.append(("SP", rng.randint(1, 4), 0))
+            out.append((rng.choice(["SP", "SPI"]), rng.randint(1, 4), 0))
         elif x < 0.75:
             out.append(("SW", rng.randint(1, 2), 0))
         elif x < 0.85:
@@ -378,6 +387,8 @@ def run(tier: str) -> int:
     nper = 1 if tier == "quick" else 2
     sel = behs if tier == "thorough" else rng.sample(behs, 9000)
     for bi, beh in enumerate(sel):
+        if bi % 2:   # every other behaviour moves the points by in-place edit + re-assignment of the same array
+            beh = [("SPI", a, b) if act == "SP" else (act, a, b) for act, a, b in beh]
         for j in range(nper):
             case = cases[(bi + j) % len(cases)]
             ev = Driver(case, rng).run(beh)
